@@ -74,6 +74,7 @@ class Ctx(object):
         self._fixed = {}
         self.numpy_division = False  # harness switch: numpy 0-division
         self.max_concretize = 64
+        self.eager_fp = False
 
     # -- variables ---------------------------------------------------------
     def _reg(self, name, c):
@@ -235,6 +236,22 @@ class Ctx(object):
         s = z3.simplify(prop, som=True, arith_lhs=True, flat=True)
         if z3.is_true(s):
             return 'unsat', None
+        if self.eager_fp:
+            # bit-precise float queries: eager bit-blasting to SAT is an
+            # order of magnitude faster than the lazy default here
+            es = z3.Then('simplify', 'fpa2bv', 'simplify', 'bit-blast',
+                         'sat').solver()
+            es.set('timeout', self.query_timeout_ms)
+            for a in self.solver.assertions():
+                es.add(a)
+            es.add(z3.Not(prop))
+            t0 = time.time()
+            r = str(es.check())
+            self.solver_s += time.time() - t0
+            self.queries += 1
+            if r == 'sat':
+                return 'sat', self.model_inputs(es.model())
+            return r, None
         self.solver.push()
         try:
             self.solver.add(z3.Not(prop))
@@ -870,6 +887,8 @@ class SymFP(Sym):
             raise TypeError('mixed fp sorts: promote explicitly')
         if isinstance(o, (int, float)) or _is_float_like(o) or _is_int_like(o):
             return z3.FPVal(float(o), self.sort)
+        if isinstance(o, SymBVInt):
+            return z3.fpSignedToFP(RNE, o.e, self.sort)
         raise TypeError(o)
 
     def _bin(self, o, f, rev=False):
@@ -943,9 +962,152 @@ class SymFP(Sym):
             return self
         return SymFP(z3.fpToFP(RNE, self.e, sort))
 
+    def __mod__(self, o):
+        # only x % 1.0 (fractional part, python floor-mod semantics)
+        if (isinstance(o, (int, float)) or _is_float_like(o)) and \
+                float(o) == 1.0:
+            fl = z3.fpRoundToIntegral(z3.RTN(), self.e)
+            return SymFP(z3.fpSub(RNE, self.e, fl))
+        return NotImplemented
+
+    def __int__(self):
+        return int(fp_trunc_to_bv(self))
+
+    def astype(self, dtype, *a, **k):
+        import numpy as np
+        dt = np.dtype(dtype)
+        if dt.kind == 'f':
+            return self.to(F32 if dt.itemsize == 4 else F64)
+        if dt.kind in 'iu':
+            return fp_trunc_to_bv(self)
+        return self
+
     def __bool__(self):
         return cur().branch(z3.Not(z3.fpIsZero(self.e)))
 
+
+
+class SymBVInt(Sym):
+    """machine integer (numpy int32 semantics: wraps) as a z3 bit-vector;
+    used where an integer is produced from / converted to IEEE floats
+    (fpToSBV / fpSignedToFP are fast, Int<->FP through reals is not)"""
+    __slots__ = ()
+    BITS = 32
+
+    @classmethod
+    def lift(cls, o):
+        if isinstance(o, SymBVInt):
+            return o.e
+        if _is_int_like(o):
+            return z3.BitVecVal(int(o), cls.BITS)
+        raise TypeError(o)
+
+    def _bin(self, o, f, rev=False):
+        try:
+            b = self.lift(o)
+        except TypeError:
+            if isinstance(o, SymFP) or _is_float_like(o):
+                # numpy: int32 op float32 -> float (value-preserving here)
+                import numpy as np
+                if isinstance(o, SymFP):
+                    srt = o.sort
+                elif isinstance(o, np.float32):
+                    srt = F32       # numpy: small-int array op float32
+                else:
+                    # an object-array loop hands float32 operands over as
+                    # python floats: the harness states the float width of
+                    # the code under analysis
+                    srt = getattr(CUR, 'int_float_sort', None)
+                    if srt is None:
+                        srt = F64
+                me = SymFP(z3.fpSignedToFP(RNE, self.e, srt))
+                other = o if isinstance(o, SymFP) else \
+                    SymFP(z3.FPVal(float(o), srt))
+                return NotImplemented if f is None else \
+                    (f(other, me) if rev else f(me, other))
+            return NotImplemented
+        a = self.e
+        if rev:
+            a, b = b, a
+        return SymBVInt(f(a, b))
+
+    def __add__(self, o):
+        return self._bin(o, lambda a, b: a + b)
+
+    def __radd__(self, o):
+        return self._bin(o, lambda a, b: a + b, True)
+
+    def __sub__(self, o):
+        return self._bin(o, lambda a, b: a - b)
+
+    def __rsub__(self, o):
+        return self._bin(o, lambda a, b: a - b, True)
+
+    def __mul__(self, o):
+        return self._bin(o, lambda a, b: a * b)
+    __rmul__ = __mul__
+
+    def __neg__(self):
+        return SymBVInt(-self.e)
+
+    def __mod__(self, o):
+        # python/numpy floor modulo for a positive constant divisor
+        if _is_int_like(o) and int(o) > 0:
+            b = z3.BitVecVal(int(o), self.BITS)
+            r = z3.SRem(self.e, b)
+            return SymBVInt(z3.If(r < 0, r + b, r))
+        return NotImplemented
+
+    def _cmp(self, o, f):
+        try:
+            return SymBool(f(self.e, self.lift(o)))
+        except TypeError:
+            return NotImplemented
+
+    def __lt__(self, o):
+        return self._cmp(o, lambda a, b: a < b)
+
+    def __le__(self, o):
+        return self._cmp(o, lambda a, b: a <= b)
+
+    def __gt__(self, o):
+        return self._cmp(o, lambda a, b: a > b)
+
+    def __ge__(self, o):
+        return self._cmp(o, lambda a, b: a >= b)
+
+    def __eq__(self, o):
+        return self._cmp(o, lambda a, b: a == b)
+
+    def __ne__(self, o):
+        return self._cmp(o, lambda a, b: a != b)
+    __hash__ = Sym.__hash__
+
+    def to_fp(self, sort):
+        return SymFP(z3.fpSignedToFP(RNE, self.e, sort))
+
+    def __rpow__(self, base):
+        # constant ** n: the exponent is needed concretely (forks)
+        return base ** int(self)
+
+    def astype(self, dtype, *a, **k):
+        import numpy as np
+        dt = np.dtype(dtype)
+        if dt.kind == 'f':
+            return self.to_fp(F32 if dt.itemsize == 4 else F64)
+        return self
+
+    def __index__(self):
+        return cur().concretize(z3.BV2Int(self.e, True))
+    __int__ = __index__
+
+    def __bool__(self):
+        return cur().branch(self.e != 0)
+
+
+def fp_trunc_to_bv(x, bits=32):
+    """C cast float -> int32 (truncation toward zero) for in-range values"""
+    return SymBVInt(z3.fpToSBV(z3.RTZ(), x.e, z3.BitVecSort(bits)))
 
 # --------------------------------------------------------------------------
 # explorer
